@@ -561,6 +561,38 @@ pub fn generate(level: usize) -> Vec<Scenario> {
         }
     }
 
+    // ---- F14: two callers share one slot whose reservation is nearly exhausted (last
+    // frames in other rows than the hint; the next tree has to be reserved meanwhile)
+    for (n, cfg) in [
+        ("2tree-simple1", Config::new(2 * TREE_FRAMES, s1.clone(), InitMode::AllocAll)),
+        ("3tree-movable1", Config::new(3 * TREE_FRAMES, mv.clone(), InitMode::AllocAll)),
+    ] {
+        let spec = &cfg.classing;
+        let c0 = spec.natural_class(0);
+        let f = |frame: usize| Op::Put { frame, order: 0, class: c0, local: None };
+        // a whole-allocated huge frame has to be split by the first free
+        let setup = vec![
+            f(3),
+            f(200),
+            f(TREE_FRAMES + 5),
+            f(TREE_FRAMES + 300),
+            Op::Get { order: 0, class: c0, local: Some(0), target: None },
+        ];
+        let get = || TOp::Do(Op::Get { order: 0, class: c0, local: Some(0), target: None });
+        let alpha = vec![
+            AOp { ops: vec![get()], unique: false },
+            seq2(get(), get()),
+            seq2(get(), TOp::Do(Op::Drain)),
+            seq2(get(), TOp::PutOwn { nth: 0, part: None, local: Some(0) }),
+            a(Op::Get { order: 0, class: c0, local: None, target: None }),
+            a(Op::Drain),
+        ];
+        out.extend(pairs(&format!("F14-shared-slot-{n}"), &cfg, &setup, &alpha));
+        if level > 0 {
+            out.extend(triples(&format!("F14-shared-slot-{n}"), &cfg, &setup, &alpha[..3]));
+        }
+    }
+
     // ---- F10: two operations per thread (allocate, then free own block)
     {
         let cfg = Config::new(TREE_FRAMES, s1.clone(), InitMode::FreeAll);
